@@ -2,7 +2,7 @@
    One theorem per reference operator: the set denoted by the reference result is the documented set.
    [fresh n s]: the system does not mention coordinate n (n = space dimension: used as scratch). *)
 From Coq Require Import List ZArith QArith.
-Require Import PPLV.Base.FM PPLV.Base.Sys PPLV.Base.Gens PPLV.Poly.PolyOps PPLV.Poly.GensLeast PPLV.Poly.PolyGenOps.
+Require Import PPLV.Base.FM PPLV.Base.Sys PPLV.Base.Gens PPLV.Poly.PolyOps PPLV.Poly.GensLeast PPLV.Poly.PolyGenOps PPLV.Poly.PolyOpsLhs.
 Import ListNotations.
 Local Open Scope Q_scope.
 
@@ -43,6 +43,20 @@ Theorem C02_bounded_affine_preimage : forall v n lb ub d s q,
   (sat_sys (bounded_affine_preimage v n lb ub d s) q <->
    exists w, sat_sys s (upd q v w) /\ leval lb q / inject_Z d <= w /\ w <= leval ub q / inject_Z d).
 Proof. exact bounded_affine_preimage_spec. Qed.
+
+Theorem C02_generalized_affine_image_lhs : forall n lhs r rhs s q,
+  fresh n s -> lcoef lhs n = 0%Z -> lcoef rhs n = 0%Z -> ~ In n (vars_of lhs) ->
+  (sat_sys (generalized_affine_image_lhs n lhs r rhs s) q <->
+   exists p, (forall i, ~ In i (vars_of lhs) -> i <> n -> p i == q i) /\ sat_sys s p /\
+             rel_holds r (leval lhs q) (leval rhs p)).
+Proof. exact generalized_affine_image_lhs_spec. Qed.
+
+Theorem C02_generalized_affine_preimage_lhs : forall n lhs r rhs s q,
+  fresh n s -> lcoef lhs n = 0%Z -> lcoef rhs n = 0%Z -> ~ In n (vars_of lhs) ->
+  (sat_sys (generalized_affine_preimage_lhs n lhs r rhs s) q <->
+   exists p, (forall i, ~ In i (vars_of lhs) -> i <> n -> p i == q i) /\ sat_sys s p /\
+             rel_holds r (leval lhs p) (leval rhs q)).
+Proof. exact generalized_affine_preimage_lhs_spec. Qed.
 
 Theorem C02_unconstrain : forall v s q, sat_sys (unconstrain v s) q <-> exists w, sat_sys s (upd q v w).
 Proof. exact unconstrain_spec. Qed.
